@@ -93,16 +93,6 @@ Proof.
   split; [vm_compute; discriminate|]. split; [reflexivity|]. vm_compute. discriminate.
 Qed.
 
-(** (False & p) == q: "FALSE AND p = q" is read as FALSE AND (p = q)  (reflected & | are not parenthesised) *)
-Theorem C05_refuted_reflected_logic_operand :
-  exists t e en, uwf t = true /\ reparse (print (build gen_cfg t)) = ROk e [] /\ strip e <> denote t /\
-                 udom en t = true /\ seval en e <> ueval en t.
-Proof.
-  exists (UBin UEq (URBin UAnd (VBool false) p) q). eexists. exists (env1 VNull VNull (VBool true) (VBool false)).
-  split; [reflexivity|]. split; [vm_compute; reflexivity|].
-  split; [vm_compute; discriminate|]. split; [reflexivity|]. vm_compute. discriminate.
-Qed.
-
 (** s.endswith('a') calls ENDSWITH, a function DuckDB does not have *)
 Theorem C05_refuted_endswith :
   exists t, uwf t = true /\ known (build gen_cfg t) = false.
